@@ -552,6 +552,43 @@ func (c *fnCtx) classify(e ast.Expr) cls {
 		if mentionsValueField(e) {
 			return cls{"value", 0, "T:int holding a field value"}
 		}
+		// an integer variable that was PARSED from a value (strconv.Atoi / ParseInt / ParseUint of a
+		// field's text, or any definition that mentions the value) prints up to 19-20 of its digits
+		if id, isId := e.(*ast.Ident); isId {
+			if o := info.Uses[id]; o != nil {
+				for _, d := range c.defsOf(o) {
+					if d.rhs == nil {
+						continue
+					}
+					if mentionsValueField(d.rhs) {
+						return cls{"value", 0, "T:int defined from a field value"}
+					}
+					if call, isCall := ast.Unparen(d.rhs).(*ast.CallExpr); isCall && len(call.Args) > 0 {
+						// decimal parses only: the number printed with %d shows the digits that were parsed; a
+						// number parsed in another base is re-rendered and does not contain the parsed text
+						decimal := false
+						if f := a.calleeOf(call); f != nil && f.Pkg() != nil && f.Pkg().Path() == "strconv" {
+							switch f.Name() {
+							case "Atoi":
+								decimal = true
+							case "ParseInt", "ParseUint":
+								if len(call.Args) >= 2 {
+									if bl, ok := call.Args[1].(*ast.BasicLit); ok && bl.Value == "10" {
+										decimal = true
+									}
+								}
+							}
+						}
+						if f := a.calleeOf(call); decimal && f != nil {
+							if k := c.classifyString(call.Args[0]); k.name != "spec" && k.name != "len" && k.name != "key" && k.name != "char" {
+								// the printed number carries what the parsed text carried (same bound)
+								return cls{k.name, k.k, "T:int parsed by strconv from (" + k.rule + ")"}
+							}
+						}
+					}
+				}
+			}
+		}
 		return cls{"len", 0, "T:integer"}
 	}
 	if isStringish(t) || isStringish(deref(t)) {
